@@ -41,3 +41,7 @@ impl MaxData {
 }
 
 simple_frame_codec!(MaxData { maximum_data }, max_data_tag!());
+
+#[cfg(all(aws_s2n_quic_verif, test))]
+#[path = "/verif/harness/core/frame_max_data.rs"]
+mod verif;
